@@ -60,6 +60,22 @@ def extract_make_sincs(facts):
                         m["val_expr"] = st["init"]
     if arg is None:
         raise ir.AnchorMissing("make_sincs: sinc(...) call in the sample loop")
+    # the sample loop visits points 0..totpoints-1 in order: exactly <window>.iter().enumerate()[.take(totpoints)] (the window has totpoints
+    # elements: window_call_ok), or 0..totpoints.  Any other adaptor (skip, rev, step_by) leaves taps out or misnumbers them.
+    it_ = m["sample_loop"]["iter"]
+    ch_, b0_ = [], it_
+    while b0_.get("k") == "mcall":
+        ch_.append((b0_["name"], b0_["args"]))
+        b0_ = b0_["recv"]
+    ch_.reverse()
+    names_ = [c_[0] for c_ in ch_]
+    loop_ok = False
+    if names_ in (["iter", "enumerate"], ["iter", "enumerate", "take"]) and is_path(b0_, wname):
+        loop_ok = len(ch_) == 2 or (len(ch_[2][1]) == 1 and sp.simplify(alg.conv(inl(ch_[2][1][0])) - m["totpoints"]) == 0)
+    elif it_.get("k") == "range" and not it_.get("incl") and it_.get("lo") is not None and nbit(it_["lo"]) == "i:0" and it_.get("hi") is not None:
+        loop_ok = sp.simplify(alg.conv(inl(it_["hi"])) - m["totpoints"]) == 0
+    if not loop_ok:
+        raise ir.AnchorMissing("make_sincs: the sample loop iterates `%s`, not <window>.iter().enumerate()[.take(totpoints)] / 0..totpoints" % show(it_)[:70])
     av = alg.conv(inl(arg))
     x = alg.sym(xname)
     fc = alg.sym(f_cutoff)
